@@ -27,6 +27,8 @@ RULE = ("DataFrame / GeoJSON: 0..5 columns x 0..8 rows over float (nan, ±inf, -
 NAMES = ["a", "b", "name", "値", "名前", "x1", "long_column_name", "é"]
 STRS = ["", "a", "ab", "hello world", "ä", "中文", "日本語テキスト", "é", "\U0001F600", "a​b", "x\ny", "a\n", "\n", "word " * 12,
         "q\"r", "   ", "　", "a\r\nb", "tail ",
+        # values whose first line ends in something else than "\n" (a lone \r, form feed, U+2028, NEL)
+        "cr\rx", "ff\x0cx", "ls\u2028x", "nel\x85x",
         # sequences whose display width is NOT the sum of their code points' widths (emoji + variation selector, ZWJ family)
         "\u2764\ufe0f ok", "\U0001F468\u200d\U0001F469\u200d\U0001F467 fam"]
 CTRL = ["tab\there", "\x1b[31mred", "bell\x07", "nul-ish\x01"]
@@ -390,6 +392,11 @@ def judge(ctx, case, obs, mouts):
                 ctx.violation("oracle", "frame:no-columns", f"a frame without columns rendered as {out!r}", case, obs)
         else:
             lines = out.split("\n")
+            if out.splitlines() != lines and not (out.endswith("\n") and out.splitlines() == lines[:-1]):
+                # the rendering is lines separated by "\n": a cell shows the FIRST line of its value, whatever ends that line
+                # (\r\n, \r, form feed, U+2028 …) — a line separator left inside a cell breaks the block for every consumer
+                # that splits lines (and moves the cursor on a terminal)
+                ctx.violation("oracle", "frame:line-separator-in-cell", f"the rendering contains a line separator other than \\n: {[l for l in lines if len(l.splitlines()) > 1][:2]!r}", case, obs)
             cut = eff["max_rows"] < nrow
             foot = f"... {nrow} rows total"
             ok_print = printable(out.replace("\n", ""))
